@@ -16,7 +16,7 @@ if [ "${MUT_MODE:-worktree}" = "repo" ]; then
 else
   WT="/dev/shm/mutwt_$$"
   trap 'git -C /repo worktree remove --force "$WT" >/dev/null 2>&1; [ -s "$BK" ] && cp "$BK" "$EV"; rm -f "$BK"' EXIT
-  git -C /repo worktree add -q --detach "$WT" HEAD || exit 2
+  git -C /repo worktree add -q --detach "$WT" "${MUT_BASE:-HEAD}" || exit 2   # MUT_BASE: a seed recorded against an earlier commit
   git -C "$WT" apply "$PATCH" || { echo "patch does not apply" >&2; exit 2; }
   export PYTHONPATH="$WT"
 fi
